@@ -109,6 +109,7 @@ static bool sweep_lin3(const LD *vals, int nv, int npartners, const char *label)
       R.count("kept_3x3");
       lin3_one<LinearSpace3f>(R, e, a, npartners);
       lin3_one<LinearSpace3fa>(R, e, a, npartners);
+      lin3_one<LinearSpace3d>(R, e, a, npartners);
     }
   });
   if (!done)
@@ -130,6 +131,8 @@ static bool sweep_aff3(const LD *vals, int nv, int np, const char *label)
         const ref::V t = trans64(ti);
         aff3_one<LinearSpace3f>(R, e, a, t, np);
         aff3_one<LinearSpace3fa>(R, e, a, t, np);
+        if (ti % 8 == 0)
+          aff3_one<LinearSpace3d>(R, e, a, t, np);
       }
     }
   });
@@ -288,17 +291,18 @@ static void replay_one(const std::string &r)
   v.resize(24, 0);
   const bool fa = type.size() > 2 && type.compare(type.size() - 2, 2, "fa") == 0;
   const bool dbl = type == "quatd";
+  const bool d3 = type == "LinearSpace3d" || type == "AffineSpace3d";
   Rep R;
   R.verbose = true;
   Pre a, b;
   auto iv = [&](int i) { return (int)v[i]; };
   if (kind == "lin3") {
     if (prep_or_say(mat_from(3, v.data()), a))
-      fa ? lin3_one<LinearSpace3fa>(R, v.data(), a, 4) : lin3_one<LinearSpace3f>(R, v.data(), a, 4);
+      d3 ? lin3_one<LinearSpace3d>(R, v.data(), a, 4) : fa ? lin3_one<LinearSpace3fa>(R, v.data(), a, 4) : lin3_one<LinearSpace3f>(R, v.data(), a, 4);
   } else if (kind == "aff3") {
     ref::V t = ref::vec(v[9], v[10], v[11]);
     if (prep_or_say(mat_from(3, v.data()), a))
-      fa ? aff3_one<LinearSpace3fa>(R, v.data(), a, t, 4) : aff3_one<LinearSpace3f>(R, v.data(), a, t, 4);
+      d3 ? aff3_one<LinearSpace3d>(R, v.data(), a, t, 4) : fa ? aff3_one<LinearSpace3fa>(R, v.data(), a, t, 4) : aff3_one<LinearSpace3f>(R, v.data(), a, t, 4);
   } else if (kind == "lin2") {
     if (prep_or_say(mat_from(2, v.data()), a))
       lin2_one(R, v.data(), a);
